@@ -281,6 +281,7 @@ func (s *Session) tableObligations(prop string) []*Obligation {
 	cb("RedactedString-not-email", []string{"C19"}, "RedactedString_not_email", "the default replacement text is not e-mail shaped")
 	cb("RedactedISODate-not-email", []string{"C19"}, "date_placeholder_not_email", "the date placeholder is not e-mail shaped")
 	cb("emailRegex", []string{"C07"}, "emailRegex_nonnil", "package invariant emailRegex != nil")
+	cb("planSummaryIndexKeys", []string{"C15"}, "planSummaryIndexKeys_pattern", "the pattern whose matches are handed to the plan-summary rewriting closure is IXSCAN\\s*\\{([^}]+)\\} (a match starts with IXSCAN, has its first '{' after it and ends in its only '}': axiom ixscan-stage-shape)")
 	// enumeration constants used numerically in the prelude (VOp(1) = Exempt, VOp(5) = OperatorMap ...)
 	for i, n := range opNames {
 		v, _ := td.Consts[n].(float64)
